@@ -22,7 +22,7 @@ ASSUMPTIONS = [
 ]
 
 CLASSES = ["hexahedron", "tetra", "hexahedron20", "quad-planestrain", "quad8-planestrain", "triangle-planestrain", "mixed-hexahedron", "neo-hooke-at-rest",
-           "quad-axisymmetric", "quad8-axisymmetric"]
+           "quad-axisymmetric", "quad8-axisymmetric", "hexahedron-orthotropic"]
 
 
 def fl(lo, hi, nd=3):
@@ -72,7 +72,7 @@ def model(fem, cls, case, transform=None):
             mesh = mesh.rotate(angle_deg=transform["angles"][ax], axis=ax if dim == 3 else 2 if False else 0) if dim == 3 else mesh.rotate(angle_deg=transform["angles"][0], axis=0)
         for ax in range(dim):
             mesh = mesh.translate(move=transform["shift"][ax], axis=ax)
-    R = {"hexahedron": fem.RegionHexahedron, "tetra": fem.RegionTetra, "hexahedron20": fem.RegionQuadraticHexahedron, "quad-planestrain": fem.RegionQuad,
+    R = {"hexahedron-orthotropic": fem.RegionHexahedron, "hexahedron": fem.RegionHexahedron, "tetra": fem.RegionTetra, "hexahedron20": fem.RegionQuadraticHexahedron, "quad-planestrain": fem.RegionQuad,
          "quad8-planestrain": fem.RegionQuadraticQuad, "triangle-planestrain": fem.RegionTriangle, "quad-axisymmetric": fem.RegionQuad, "quad8-axisymmetric": fem.RegionQuadraticQuad, "mixed-hexahedron": fem.RegionHexahedron,
          "neo-hooke-at-rest": fem.RegionHexahedron}[cls]
     if cls.startswith("tetra"):
@@ -91,6 +91,10 @@ def model(fem, cls, case, transform=None):
     elif dim == 2:
         fc = fem.FieldContainer([fem.FieldPlaneStrain(region, dim=2)])
         um = fem.LinearElastic(E=E, nu=nu)
+    elif cls == "hexahedron-orthotropic":
+        fc = fem.FieldContainer([fem.Field(region, dim=3)])
+        # engineering constants of an orthotropic solid (positive definite: small Poisson ratios)
+        um = fem.LinearElasticOrthotropic(E=[E, 1.6 * E, 0.7 * E], nu=[0.6 * nu, 0.5 * nu, 0.4 * nu], G=[0.3 * E, 0.45 * E, 0.2 * E])
     elif cls == "neo-hooke-at-rest":
         fc = fem.FieldContainer([fem.Field(region, dim=3)])
         um = fem.NeoHooke(mu=E / (2 * (1 + nu)), bulk=E / (3 * (1 - 2 * nu)))
@@ -146,7 +150,10 @@ def partition_model(fc, bounds):
 def check(cls, case, rec):
     fem = import_felupe()
     mesh, Xref, fc, um, dim = model(fem, cls, case)
-    bounds = boundaries(fem, fc, Xref, case, dim)
+    # every fourth case: the boundaries live on a separate global field container that is handed over as x0 (multi-body
+    # workflow); the items keep containers of their own
+    xg = fc.copy() if case["seed"] % 4 == 3 else None
+    bounds = boundaries(fem, xg if xg is not None else fc, Xref, case, dim)
     rho = case["rho"]
     body = fem.SolidBody(um, fc, density=rho)
     k = case["k"]
@@ -185,6 +192,10 @@ def check(cls, case, rec):
         seen.update(A=A.copy(), M=M.copy(), sigma=sigma, kw=dict(kw))
         return eigsh(A=A, M=M, sigma=sigma, **kw)
 
+    xkw = {}
+    if xg is not None:
+        xkw["x0"] = xg
+        rec.label("separate-global-field-x0")
     kw = {}
     if cls == "mixed-hexahedron":
         # scipy draws ARPACK's start vector from the global RNG; fixed here so that a case is a pure function of its data
@@ -196,7 +207,7 @@ def check(cls, case, rec):
         kw["sigma"] = sigma
         rec.label("sigma-keyword")
     if case["seed"] % 2:
-        job = fem.FreeVibration(items, bounds).evaluate(k=k, solver=recording_solver, **kw)
+        job = fem.FreeVibration(items, bounds).evaluate(k=k, solver=recording_solver, **kw, **xkw)
         K11s, M11s = K[dof1][:, dof1], M[dof1][:, dof1]
         ok = rec.require("solver-receives-free-block-shapes", seen["A"].shape == K11s.shape and seen["M"].shape == M11s.shape, [seen["A"].shape, K11s.shape])
         if ok:
@@ -204,7 +215,7 @@ def check(cls, case, rec):
             rec.close("solver-receives-M11", float(abs(seen["M"] - M11s).max()) / float(abs(M11s).max()), 1e-13)
         rec.require("solver-receives-k-and-shift", seen["kw"].get("k") == k and seen["sigma"] == sigma, [str(seen["kw"])[:80], seen["sigma"]])
     else:
-        job = fem.FreeVibration(items, bounds).evaluate(k=k, **kw)
+        job = fem.FreeVibration(items, bounds).evaluate(k=k, **kw, **xkw)
     lam = np.asarray(job.eigenvalues)
     V = np.asarray(job.eigenvectors)
     if not rec.require("shapes", lam.shape == (k,) and V.shape == (len(dof1), k), [lam.shape, V.shape]):
@@ -242,7 +253,7 @@ def check(cls, case, rec):
         rec.require("eigenvalues-positive", bool(lam.min() > 0), float(lam.min()))
     # extracted mode shapes
     n_mode = case["seed"] % k
-    field, freq = job.extract(n=n_mode, inplace=False)
+    field, freq = job.extract(n=n_mode, inplace=False, **xkw)
     vals = np.concatenate([f.values.ravel() for f in field.fields])
     rec.close("mode-vanishes-on-prescribed-unknowns", float(np.abs(vals[dof0]).max()) if len(dof0) else 0.0, 0.0)
     rec.close("mode=eigenvector-on-free-unknowns", float(np.abs(vals[dof1] - V[:, n_mode]).max()), 0.0)
@@ -305,7 +316,7 @@ def rigid_check(cls, case, rec):
 
 FAMILIES = [
     Family("eigenpairs", CLASSES, check, strategy=strategy, n={"quick": 24, "thorough": 400}, chunk=8, weight=2),
-    Family("unconstrained", ["hexahedron", "tetra", "quad-planestrain", "triangle-planestrain", "hexahedron20"], free_check, strategy=strategy, n={"quick": 10, "thorough": 150}, chunk=5),
+    Family("unconstrained", ["hexahedron", "tetra", "quad-planestrain", "triangle-planestrain", "hexahedron20", "hexahedron-orthotropic"], free_check, strategy=strategy, n={"quick": 10, "thorough": 150}, chunk=5),
     Family("rigid-motion", ["hexahedron", "tetra", "quad-planestrain", "mixed-hexahedron"], rigid_check, strategy=strategy, n={"quick": 10, "thorough": 200}, chunk=5, weight=2),
 ]
 
